@@ -41,11 +41,11 @@ CHECKS = {
     "C10": {"parts": [FLOW, preempt(["pkg/lifecycle/service.go", "pkg/lifecycle-poc/service.go"])]},
     "C11": {"parts": [FLOW, preempt(["pkg/lifecycle/service.go", "pkg/lifecycle-poc/service.go"])]},
     "C13": {"parts": [FLOW, preempt(["pkg/lifecycle/stream/processor.go"])]},
-    "C16": {"parts": [FLOW]},
+    "C16": {"parts": [FLOW, preempt(["pkg/provisioning/lock.go", "pkg/provisioning/plan.go"])]},
     "C09": {"rule": "conditional processor: inputs<=4 x all match patterns x output length 0..kept+1 x kind vectors x slice capacity; sandbox: plugin behaviours x context states; reply shapes of processors, destinations and sources explored as answers of the scripted plugins on the real full stack",
             "parts": [{"name": "condmerge", "pkg": "pkg/verifc09", "harness": "c09cond", "run": "^TestVerifC09Cond$"},
                       {"name": "sandbox", "pkg": "pkg/plugin/connector/builtin", "harness": "c09sandbox", "run": "^TestVerifC09Sandbox$", "instrument": True},
-                      FLOW, preempt(V1_POINTS + V2_POINTS)]},
+                      FLOW, preempt(V1_POINTS + V2_POINTS + ["pkg/processor/processor_condition.go", "pkg/processor/runnable_processor.go"])]},
     "C08": {"rule": "input enumeration: batch size <=3 x per-record result kinds {pass, filter, error, split2, short-once} at stage 1 x {pass, filter, error} at stage 2 x 1-2 destinations x every single rejected piece; one default-schedule execution of the real full stack per input, compared with a reference interpreter",
             "parts": [{"name": "accounting", "pkg": "pkg/verifflow", "harness": "flow", "run": "^TestVerifC08$", "instrument": True, "shards": 16, "shards_thorough": 16}]},
     "C05": {"parts": [FLOW, preempt(V2_WORKER_POINTS)]},
